@@ -27,6 +27,7 @@ from syne_tune.constants import ST_CHECKPOINT_DIR
 parser = argparse.ArgumentParser()
 parser.add_argument("--" + ST_CHECKPOINT_DIR, type=str)
 parser.add_argument("--lr", type=float)
+parser.add_argument("--sync_dir", type=str, default=None)
 args, _ = parser.parse_known_args()
 ckpt_dir = getattr(args, ST_CHECKPOINT_DIR)
 os.makedirs(ckpt_dir, exist_ok=True)
@@ -35,6 +36,26 @@ start = 0
 if os.path.exists(ckpt):
     start = int(open(ckpt).read().split("step=")[1])
 report = Reporter()
+if args.sync_dir:
+    # scenario "the job keeps training between the poll and pause_trial": a fresh run reports step 1, waits
+    # for the harness (file "go"), trains 2 more epochs; a resumed run trains 2 epochs from its checkpoint;
+    # then it signals "done_<start>" and idles until it is killed
+    import time
+    def epoch(step):
+        with open(ckpt, "w") as f:
+            f.write("lr=%r,step=%d" % (args.lr, step))
+        report(step=step, loss=1.0)
+    steps = [start + 1, start + 2]
+    if start == 0:
+        epoch(1)
+        while not os.path.exists(os.path.join(args.sync_dir, "go")):
+            time.sleep(0.02)
+        steps = [2, 3]
+    for step in steps:
+        epoch(step)
+    open(os.path.join(args.sync_dir, "done_%d" % start), "w").close()
+    time.sleep(60)
+    raise SystemExit(0)
 is_best = abs(args.lr - 0.5) < 1e-9
 # the best configuration converges after 2 steps and the script ends on its own
 num_steps = 2 if is_best else 20
@@ -110,6 +131,17 @@ def check_events(events):
                              "is launched its checkpoint directory %s: the clone trains from scratch" % (
                                  e[1], src, src, e[1], "is gone" if e[2] is None else "differs from the copied content"),
                              dict(backend="LocalBackend", event="warm_start_checkpoint_missing_at_job_launch")))
+        if e[0] == "resume_check":
+            _, t, before, launch, stored, first = e
+            if before is None or launch != before:
+                viol.append(("paused trial %d is resumed, but when the resumed job is launched its checkpoint directory %s "
+                             "(the job last wrote step %s before it was paused; nobody stopped the trial)" % (
+                                 t, "is gone" if launch is None else "differs from what the job last wrote", stored),
+                             dict(backend="LocalBackend", event="paused_checkpoint_lost_at_resume")))
+            if first is not None and stored is not None and first != stored + 1:
+                viol.append(("resumed trial %d reports step %d first although its checkpoint held step %d: it did not "
+                             "continue from its checkpoint" % (t, first, stored),
+                             dict(backend="LocalBackend", event="resume_did_not_continue_from_checkpoint")))
         if e[0] == "first_report" and e[2] is not None and e[3] is not None and e[2] != e[3] + 1:
             viol.append(("trial %d, warm-started from a checkpoint written at step %d, reports step %d first: it did not resume "
                          "from that checkpoint" % (e[1], e[3], e[2]),
@@ -139,6 +171,46 @@ def check_events(events):
                 viol.append(("copy_checkpoint(%d -> %d): the target does not hold the source's content" % (src, tgt),
                              dict(backend="LocalBackend", event="checkpoint_copy_differs")))
     return viol
+
+
+def stream_pause_resume(tmp, delete_checkpoints=True):
+    """poll -> the job reports 2 more epochs -> pause_trial -> resume_trial: the paused trial's checkpoint must
+    still be what the job last wrote when the resumed job is launched, and the resumed run continues from it"""
+    sync = tmp / ("sync_%s" % delete_checkpoints)
+    sync.mkdir()
+    backend = make_backend(tmp / "train.py", delete_checkpoints=delete_checkpoints)
+    backend.set_path(results_root=str(tmp / ("exp3_%s" % delete_checkpoints)))
+    crash = None
+
+    def wait_file(name, timeout=30):
+        t0 = time.time()
+        while not (sync / name).exists():
+            if time.time() - t0 > timeout:
+                raise RuntimeError("script did not signal " + name)
+            time.sleep(0.02)
+
+    try:
+        backend.start_trial(config={"lr": 0.9, "sync_dir": str(sync)})
+        t0, result = time.time(), None
+        while result is None and time.time() - t0 < 30:
+            _, results = backend.fetch_status_results([0])     # the poll: delivers step 1
+            result = results[0][1] if results else None
+            time.sleep(0.02)
+        (sync / "go").touch()                                  # the job trains on: steps 2, 3 (not polled)
+        wait_file("done_0")
+        backend.pause_trial(0, result)                         # the scheduler's PAUSE for the step-1 report
+        before = snapshot(backend.checkpoint_trial_path(0))
+        f = backend.checkpoint_trial_path(0) / "checkpoint.txt"
+        stored = int(f.read_text().split("step=")[1]) if f.exists() else None
+        backend.resume_trial(0)
+        launch = [e for e in backend.events if e[0] == "launch" and e[1] == 0][-1][2]
+        backend.events.append(("resume_check", 0, before, launch, stored, first_report(backend, 0)))
+    except Exception as e:
+        crash = "%s: %s" % (type(e).__name__, str(e)[:120])
+    finally:
+        events = list(backend.events)
+        backend.stop_all()
+    return events, crash
 
 
 def contract_violations(events):
@@ -227,7 +299,7 @@ def stream_tuner(tmp):
     return list(backend.events), crash
 
 
-def run_streams(which=("backend", "backend_keep", "tuner")):
+def run_streams(which=("backend", "backend_keep", "pause_resume", "pause_resume_keep", "tuner")):
     """[(stream name, events, crash, violations)]"""
     logging.disable(logging.CRITICAL)
     out = []
@@ -237,6 +309,8 @@ def run_streams(which=("backend", "backend_keep", "tuner")):
         for name in which:
             if name == "tuner":
                 events, crash = stream_tuner(tmp)
+            elif name.startswith("pause_resume"):
+                events, crash = stream_pause_resume(tmp, delete_checkpoints=(name == "pause_resume"))
             else:
                 events, crash = stream_backend(tmp, delete_checkpoints=(name == "backend"))
             out.append((name, events, crash, check_events(events)))
